@@ -36,4 +36,16 @@ PROPS = {
         "level_text": "Theorem in Coq for all histories (unbounded) of AddInterval/AddDefaultInterval/Clear and all characters: Lookup returns the reference of the latest covering registration since the last Clear, nothing outside [0,0xFFFE]; uniform across the 0x100 split. The map is a small pure data structure entirely inside the model; correspondence runs exhaustive histories of length <=2 (quick) / <=3 (thorough) over the boundary set plus random ones against CharReferenceMap.go.",
         "level_note": "Trusted: Coq kernel + vm_compute; hand-written model CharMap.v tied to the Go code by correspondence on generated histories only; extraction + OCaml driver; Go harness. No axioms. The dispatch consequence for tokenizers (GetCharacterState) is covered with the tokenizer properties C04/C13, which build their character tables through this model from the tables extracted from the source.",
     },
+    "C16": {
+        "run_module": "RunC16", "model": "model_C16",
+        "model_targets": ["RunC16.vo"],
+        "proof_files": ["TrieProofs.v", "TrieSpec.v", "TrieLongest.v"],
+        "kernel_cases": {"quick": 40, "thorough": 80},
+        "exhaustive_in": {"thorough": False},
+        "explanation": "theorem symbol_longest: for every registration list and every input the symbol state returns the longest registered prefix (or the single next character) with the type of its last registration and consumes exactly its length; build_spec characterises the table denotationally for all registration lists. SymbolNode/SymbolRootNode are modelled completely (flat trie); the implementation is compared on one state per case with hundreds of inputs each",
+        "assumptions": ["symbols are non-empty, contain no NUL and no character above U+FFFE (SymbolNode.Ancestry drops NUL; the children map rejects U+FFFF), token types other than Unknown"],
+        "design_ref": "DESIGN.md 5.4",
+        "level_text": "Theorem in Coq for all registration lists (any lengths, shared prefixes, orders, repeated registrations) and all inputs: longest registered prefix or single character, own type (last registration), exact consumption, no unregistered proper prefix. The trie is a small pure structure fully inside the model; correspondence drives one GenericSymbolState per case through hundreds of inputs, so instance-level cache effects (sibling aliasing) are observable.",
+        "level_note": "Trusted: Coq kernel + vm_compute; hand-written flat-trie model (Trie.v) tied to SymbolNode.go/SymbolRootNode.go by correspondence on generated cases only; extraction + driver; Go harness. No axioms. Go slice aliasing is not in the model: it is visible only through the correspondence and the direct oracle.",
+    },
 }
